@@ -9,7 +9,8 @@ initialisation (Props/C13SrcNone.lean proves that, and that the hand model's exp
 Reading rules added here (trusted, on top of those of looptrans.py)
 * the statements immediately before the loop, in the loop's own block, must be plain assignments (chained targets
   allowed, in any grouping / order) that give EVERY declared loop-carried variable the constant `None`; anything else
-  is `Untranslatable` (the definitions are replaced by a comment and the theorems about them stop checking);
+  is `Untranslatable` (the definitions are replaced by a comment plus a step that always fails with "NOT TRANSLATED",
+  so that the driver still builds and exactly the theorems about them stop checking);
 * a variable known to be `None` may be copied (`a = b`) and tested (`is None` / `is not None`, decided statically);
   as an operand of `+` / `-` (also through `+=`, broadcast with a vector, or inside the argument of an inlined helper)
   it raises: the statement becomes `.error "TypeError"` and nothing after it is read.  A `yield` before such a raise on
@@ -189,6 +190,14 @@ def emit_none_loop(repo, o, path, fname, lean, targets, state, elem, params, yty
         text = NoneLoop(tree, state, elem, params, ytype).translate_none(lean, loop, post, comment)
     except (Untranslatable, KeyError, OSError, SyntaxError) as e:
         o.lines.append(f"-- NOT TRANSLATED: {path}:{fname}: {type(e).__name__}: {str(e)[:200]}".replace("\n", " "))
+        # the driver (Main) uses these names: keep them defined, as a step that always fails, so that the build of the
+        # driver survives and exactly the theorems about the None state (Props/C13SrcNone.lean) stop checking
+        stype = "(" + " × ".join(t if t.startswith("Option ") else f"Option ({t})" for _, t in state) + ")"
+        sig = Loop.sig(None, [params, elem])
+        o.lines.append(f"def {lean}_step {sig} :\n    Except String (List {ytype} × {stype}) :=\n"
+                       f"  (.error \"NOT TRANSLATED\")")
+        o.lines.append(f"def {lean}_final {Loop.sig(None, [params])} : Except String (List {ytype}) :=\n"
+                       f"  (.error \"NOT TRANSLATED\")")
         o.info[lean] = {"error": str(e)[:200]}
         return
     o.lines.append(text)
